@@ -695,7 +695,7 @@ class LocSlice(Op):
 @register("loc_list", kinds=("frame", "series"), weight=0.5, tags={"loc"})
 class LocList(Op):
     """x.loc[[labels]] with labels that exist; dask needs known divisions (documented KeyError otherwise),
-    so without them the dask side selects the same rows with index.isin."""
+    so without them the dask side selects the same rows with index.to_series().isin (Index.isin gives a dask array)."""
 
     @staticmethod
     def gen(draw, ins):
@@ -708,7 +708,8 @@ class LocList(Op):
             return None
         s = st()
         vals = sorted(set(x.index.tolist()))
-        labels = draw(s.lists(s.sampled_from(vals), min_size=1, max_size=6))
+        # unique labels: the unknown-divisions emulation below (isin) cannot repeat rows
+        labels = draw(s.lists(s.sampled_from(vals), min_size=1, max_size=6, unique=True))
         if draw(s.booleans()):
             labels = sorted(labels)
         return {"labels": labels}
@@ -717,7 +718,7 @@ class LocList(Op):
     def apply(side, objs, args):
         x = objs[0]
         if side == "dask" and not x.known_divisions:
-            return x[x.index.isin(sorted(set(args["labels"])))]
+            return x[x.index.to_series().isin(sorted(set(args["labels"])))]
         return x.loc[args["labels"]]
 
     @staticmethod
@@ -1348,6 +1349,8 @@ def precondition(opname, ins, args):
     op = OPS[opname]
     if "aligned" in op.tags and len(ins) > 1 and any(f.rowset != fl[0].rowset for f in fl[1:]):
         return False
+    if hasattr(op, "pre") and not op.pre(ins, args):
+        return False
     if opname in ("head", "cum", "shift") and not fl[0].ordered:
         return False
     if opname == "groupby_agg" and args.get("how") in ("first", "last") and not fl[0].ordered:
@@ -1368,7 +1371,7 @@ def precondition(opname, ins, args):
         x = vals[0]
         if not (fl[0].indexed and fl[0].ordered) or len(x) == 0 or not x.index.is_monotonic_increasing or x.index.hasnans or x.index.dtype.kind not in "iuf":
             return False
-        if isinstance(x.index, pd.MultiIndex) or not set(args["labels"]) <= set(x.index.tolist()):
+        if isinstance(x.index, pd.MultiIndex) or not set(args["labels"]) <= set(x.index.tolist()) or len(set(args["labels"])) != len(args["labels"]):
             return False
     if opname == "nlargest":
         x = vals[0]
@@ -1828,3 +1831,392 @@ class ReductionCustom(Op):
     @staticmethod
     def flags(ins, args, out):
         return replace(ins[0][1], rowset="", ordered=True, indexed=True, layout=True)
+
+
+# ------------------------------------------------------------------ third operator batch (method operators, ufuncs, query/eval, row-wise reductions, pivot, ...)
+
+
+def _numeric_frame_or_series(x):
+    if kind_of(x) == "series":
+        return col_kind(x.dtype) in ("int", "float")
+    return kind_of(x) == "frame" and len(x.columns) > 0 and all(col_kind(d) in ("int", "float") for d in x.dtypes)
+
+
+METHOD_ARITH = ["add", "sub", "mul", "truediv", "floordiv", "mod", "pow", "radd", "rsub", "rmul", "rtruediv"]
+METHOD_CMP = ["eq", "ne", "lt", "le", "gt", "ge"]
+OPER = {"truediv": operator.truediv, "floordiv": operator.floordiv, "mod": operator.mod, "pow": operator.pow}
+
+
+@register("method_op", kinds=("series", "frame"), weight=1.0, tags={"rowwise"})
+class MethodOp(Op):
+    """x.add(c) / x.lt(c) / x // c ... with a positive scalar (MethodOperator, EQSeries.., Div, FloorDiv, Mod, Pow)"""
+
+    @staticmethod
+    def gen(draw, ins):
+        x = ins[0][0]
+        if not _numeric_frame_or_series(x):
+            return None
+        s = st()
+        m = draw(s.sampled_from(METHOD_ARITH + METHOD_CMP))
+        out = {"m": m, "c": draw(s.sampled_from([2, 3])), "form": "method"}
+        if m in OPER and draw(s.booleans()):
+            out["form"] = "operator"
+        elif m in METHOD_ARITH and kind_of(x) == "series" and draw(s.integers(0, 3)) == 0:
+            out["fill_value"] = 1
+        return out
+
+    @staticmethod
+    def apply(side, objs, args):
+        x = objs[0]
+        if args["form"] == "operator":
+            return OPER[args["m"]](x, args["c"])
+        kw = {"fill_value": args["fill_value"]} if "fill_value" in args else {}
+        return getattr(x, args["m"])(args["c"], **kw)
+
+
+@register("ufunc", kinds=("series", "frame"), weight=0.5, tags={"rowwise"})
+class UFunc(Op):
+    @staticmethod
+    def gen(draw, ins):
+        if not _numeric_frame_or_series(ins[0][0]):
+            return None
+        return {"f": draw(st().sampled_from(["sign", "floor", "negative", "exp"]))}
+
+    @staticmethod
+    def apply(side, objs, args):
+        return getattr(np, args["f"])(objs[0])
+
+
+@register("xor", arity=2, kinds=("series", "series"), weight=0.3, tags={"rowwise", "aligned"})
+class Xor(Op):
+    @staticmethod
+    def gen(draw, ins):
+        (a, fa), (b, fb) = ins
+        if fa.rowset != fb.rowset or col_kind(a.dtype) != "bool" or col_kind(b.dtype) != "bool":
+            return None
+        return {}
+
+    @staticmethod
+    def apply(side, objs, args):
+        return objs[0] ^ objs[1]
+
+
+def _query_string(draw, x):
+    s = st()
+    num = [c for c in cols_of(x, ("int", "float")) if str(c).isidentifier()]
+    if not num:
+        return None
+    parts = []
+    for _ in range(draw(s.integers(1, 2))):
+        c = draw(s.sampled_from(num))
+        parts.append(f"{c} {draw(s.sampled_from(['>', '<', '>=', '<=', '==', '!=']))} {draw(s.integers(-1, 3))}")
+    return f" {draw(s.sampled_from(['and', 'or']))} ".join(parts)
+
+
+@register("query", kinds=("frame",), weight=1.0, tags={"filter"})
+class Query(Op):
+    @staticmethod
+    def gen(draw, ins):
+        q = _query_string(draw, ins[0][0])
+        return None if q is None else {"q": q}
+
+    @staticmethod
+    def apply(side, objs, args):
+        return objs[0].query(args["q"])
+
+    @staticmethod
+    def flags(ins, args, out):
+        return replace(ins[0][1], rowset="")
+
+    @staticmethod
+    def pre(ins, args):
+        import re
+
+        return set(re.findall(r"[A-Za-z_][A-Za-z_0-9]*", args["q"])) - {"and", "or"} <= set(map(str, ins[0][0].columns))
+
+
+@register("eval_assign", kinds=("frame",), weight=0.6, tags={"rowwise"})
+class EvalAssign(Op):
+    @staticmethod
+    def gen(draw, ins):
+        x = ins[0][0]
+        num = [c for c in cols_of(x, ("int", "float")) if str(c).isidentifier()]
+        if not num:
+            return None
+        s = st()
+        a, b = draw(s.sampled_from(num)), draw(s.sampled_from(num))
+        target = draw(s.sampled_from(["ev", a]))
+        return {"e": f"{target} = {a} {draw(s.sampled_from(['+', '-', '*']))} {b} + 1"}
+
+    @staticmethod
+    def apply(side, objs, args):
+        return objs[0].eval(args["e"])
+
+    @staticmethod
+    def pre(ins, args):
+        import re
+
+        return set(re.findall(r"[A-Za-z_][A-Za-z_0-9]*", args["e"].split("=", 1)[1])) <= set(map(str, ins[0][0].columns))
+
+
+@register("row_reduce", kinds=("frame",), weight=0.8, tags={"rowwise"})
+class RowReduce(Op):
+    """reductions along axis=1 over the numeric columns (VarColumns, sum/count(axis=1), ...)"""
+
+    @staticmethod
+    def gen(draw, ins):
+        x = ins[0][0]
+        num = cols_of(x, ("int", "float"))
+        if len(num) < 2:
+            return None
+        return {"cols": _subset(draw, num, min_size=2, max_size=3), "how": draw(st().sampled_from(["sum", "mean", "min", "max", "count", "var", "std"]))}
+
+    @staticmethod
+    def apply(side, objs, args):
+        return getattr(objs[0][list(args["cols"])], args["how"])(axis=1)
+
+
+@register("rename_axis", kinds=("frame", "series"), weight=0.4, tags={"rowwise"})
+class RenameAxis(Op):
+    @staticmethod
+    def gen(draw, ins):
+        x, f = ins[0]
+        if isinstance(x.index, pd.MultiIndex):
+            return None
+        return {"name": draw(st().sampled_from(["ax", "idx", None]))}
+
+    @staticmethod
+    def apply(side, objs, args):
+        return objs[0].rename_axis(args["name"])
+
+
+@register("set_columns", kinds=("frame",), weight=0.4, tags={"rowwise", "proj"})
+class SetColumns(Op):
+    """df.columns = [...] on a copy (ColumnsSetter)"""
+
+    @staticmethod
+    def gen(draw, ins):
+        x = ins[0][0]
+        if len(x.columns) == 0 or "rid" in x.columns:
+            return None
+        return {"names": [f"c{i}" for i in range(len(x.columns))]}
+
+    @staticmethod
+    def apply(side, objs, args):
+        y = objs[0].copy()
+        y.columns = list(args["names"])
+        return y
+
+    @staticmethod
+    def pre(ins, args):
+        return len(args["names"]) == len(ins[0][0].columns)
+
+
+@register("apply_rows", kinds=("frame",), weight=0.5, tags={"rowwise", "udf"})
+class ApplyRows(Op):
+    @staticmethod
+    def gen(draw, ins):
+        num = cols_of(ins[0][0], ("int", "float"))
+        if not num:
+            return None
+        return {"cols": _subset(draw, num, max_size=3)}
+
+    @staticmethod
+    def apply(side, objs, args):
+        x = objs[0][list(args["cols"])]
+        if side == "pandas":
+            if len(x) == 0:
+                return pd.Series([], index=x.index, dtype="float64")
+            return x.apply(udfs.row_nansum, axis=1)
+        return x.apply(udfs.row_nansum, axis=1, meta=(None, "float64"))
+
+
+@register("series_map_func", kinds=("series",), weight=0.4, tags={"rowwise", "udf"})
+class SeriesMapFunc(Op):
+    @staticmethod
+    def gen(draw, ins):
+        if col_kind(ins[0][0].dtype) not in ("int", "float"):
+            return None
+        return {}
+
+    @staticmethod
+    def apply(side, objs, args):
+        x = objs[0]
+        if side == "pandas":
+            return x.map(udfs.plus_one)
+        return x.map(udfs.plus_one, meta=(x.name, x.dtype))
+
+
+@register("index_to", kinds=("frame", "series"), weight=0.3, tags={"rowwise"})
+class IndexTo(Op):
+    @staticmethod
+    def gen(draw, ins):
+        x, f = ins[0]
+        if not f.indexed or isinstance(x.index, pd.MultiIndex):
+            return None
+        return {"how": draw(st().sampled_from(["to_series", "to_frame"]))}
+
+    @staticmethod
+    def apply(side, objs, args):
+        return getattr(objs[0].index, args["how"])()
+
+    @staticmethod
+    def pre(ins, args):
+        return ins[0][1].indexed
+
+
+@register("case_when", kinds=("series",), weight=0.4, tags={"rowwise"})
+class CaseWhen(Op):
+    @staticmethod
+    def gen(draw, ins):
+        if col_kind(ins[0][0].dtype) not in ("int", "float"):
+            return None
+        s = st()
+        return {"c": draw(s.integers(-1, 3)), "v": draw(s.sampled_from([-1, 0, 9])), "cmp": draw(s.sampled_from(["gt", "le"]))}
+
+    @staticmethod
+    def apply(side, objs, args):
+        x = objs[0]
+        return x.case_when([(BIN[args["cmp"]](x, args["c"]), args["v"])])
+
+
+@register("sample_all", kinds=("frame", "series"), weight=0.3, tags={"rowwise"})
+class SampleAll(Op):
+    """sample(frac=1.0): a permutation inside every partition; the row multiset is unchanged"""
+
+    @staticmethod
+    def apply(side, objs, args):
+        if side == "pandas":
+            return objs[0]
+        return objs[0].sample(frac=1.0, random_state=7)
+
+    @staticmethod
+    def flags(ins, args, out):
+        return replace(ins[0][1], rowset="", ordered=False)
+
+
+@register("explode", kinds=("frame",), weight=0.3, tags={"rowwise"})
+class Explode(Op):
+    """explode of a column of scalars keeps every row (the projection / filter rules of ExplodeFrame are what is exercised)"""
+
+    @staticmethod
+    def gen(draw, ins):
+        c = cols_of(ins[0][0], ("str", "int"))
+        if not c:
+            return None
+        return {"col": draw(st().sampled_from(c))}
+
+    @staticmethod
+    def apply(side, objs, args):
+        return objs[0].explode(args["col"])
+
+    @staticmethod
+    def pre(ins, args):
+        return args["col"] in ins[0][0].columns
+
+
+@register("frame_nunique", kinds=("frame",), weight=0.3, tags={"reduction"})
+class FrameNunique(Op):
+    @staticmethod
+    def gen(draw, ins):
+        if not len(ins[0][0].columns):
+            return None
+        return {}
+
+    @staticmethod
+    def apply(side, objs, args):
+        return objs[0].nunique()
+
+    @staticmethod
+    def flags(ins, args, out):
+        return replace(ins[0][1], rowset="", ordered=True, indexed=True, layout=True)
+
+
+@register("groupby_holistic", kinds=("frame",), weight=0.8, tags={"groupby"})
+class GroupbyHolistic(Op):
+    """median / prod / cov / corr per group"""
+
+    @staticmethod
+    def gen(draw, ins):
+        x, f = ins[0]
+        keys = [c for c in cols_of(x, ("int", "str")) if c != "rid"]
+        if not keys:
+            return None
+        s = st()
+        by = [draw(s.sampled_from(keys))]
+        vals = [c for c in cols_of(x, ("int", "float")) if c not in by]
+        if not vals:
+            return None
+        how = draw(s.sampled_from(["median", "prod", "median", "cov", "corr"]))
+        if how in ("cov", "corr"):
+            # known finding D69 (cov/corr over missing values): excluded by construction, canary in the C02 catalogue
+            vals = [c for c in vals if not x[c].isna().any()]
+            if len(vals) < 2 or len(x) == 0:
+                return None
+            return {"by": by, "how": how, "cols": _subset(draw, vals, min_size=2, max_size=2)}
+        return {"by": by, "how": how, "cols": _subset(draw, vals, max_size=2), "series": draw(s.booleans())}
+
+    @staticmethod
+    def apply(side, objs, args):
+        g = objs[0].groupby(args["by"][0])
+        cols = list(args["cols"])
+        g = g[cols[0]] if args.get("series") else g[cols]
+        out = getattr(g, args["how"])()
+        if side == "pandas" and args["how"] in ("cov", "corr"):
+            # dask orders the labels of the matrix alphabetically (rows are compared unordered anyway)
+            out = out.sort_index(axis=1)
+        return out
+
+    @staticmethod
+    def flags(ins, args, out):
+        return replace(ins[0][1], rowset="", indexed=True, ordered=False, layout=False)
+
+    @staticmethod
+    def pre(ins, args):
+        x = ins[0][0]
+        if not set(args["by"]) | set(args["cols"]) <= set(x.columns):
+            return False
+        return args["how"] not in ("cov", "corr") or (len(x) > 0 and not x[list(args["cols"])].isna().any().any())
+
+
+@register("pivot_table", kinds=("frame",), weight=0.4, tags={"groupby"})
+class PivotTable(Op):
+    @staticmethod
+    def gen(draw, ins):
+        x, f = ins[0]
+        s = st()
+        # pandas drops all-NaN cells / rows and rows whose column key is missing; dask keeps them: only complete data is compared
+        idx = [c for c in cols_of(x, ("int",)) if c != "rid" and not x[c].isna().any()]
+        cat = [c for c in cols_of(x, ("str",)) if len(x) and x[c].notna().all()]
+        vals = [c for c in cols_of(x, ("float", "int")) if x[c].notna().all()]
+        if not idx or not cat:
+            return None
+        i, c = draw(s.sampled_from(idx)), draw(s.sampled_from(cat))
+        vals = [v for v in vals if v not in (i, c)]
+        if not vals:
+            return None
+        return {"index": i, "columns": c, "values": draw(s.sampled_from(vals)), "aggfunc": draw(s.sampled_from(["sum", "mean", "count"]))}
+
+    @staticmethod
+    def apply(side, objs, args):
+        x = objs[0]
+        kw = dict(index=args["index"], columns=args["columns"], values=args["values"], aggfunc=args["aggfunc"])
+        if side == "pandas":
+            cats = sorted(x[args["columns"]].dropna().unique().tolist())
+            y = x.astype({args["columns"]: pd.CategoricalDtype(cats)})
+            out = y.pivot_table(observed=False, **kw)
+            # every category is a column (pandas drops all-NaN columns); sum/count of a pair that does not occur is 0
+            out = out.reindex(columns=pd.CategoricalIndex(cats, categories=cats, name=args["columns"]))
+            return out if args["aggfunc"] == "mean" else out.fillna(0)
+        return x.categorize(columns=[args["columns"]]).pivot_table(**kw)
+
+    @staticmethod
+    def flags(ins, args, out):
+        return replace(ins[0][1], rowset="", indexed=True, ordered=False, layout=False)
+
+    @staticmethod
+    def pre(ins, args):
+        x = ins[0][0]
+        c = args["columns"]
+        return ({args["index"], c, args["values"]} <= set(x.columns) and len({args["index"], c, args["values"]}) == 3 and len(x) > 0 and x[c].notna().all()
+                and not x[args["index"]].isna().any() and x[args["values"]].notna().all() and col_kind(x[c].dtype) == "str")
